@@ -215,6 +215,24 @@ impl<'a> Gen<'a> {
             },
             33 => Value::BigInt(Some(if t % 2 == 0 { i64::MIN } else { i64::MAX - t })),
             34 => Value::Double(Some(-(t as f64) - 0.5)),
+            // the limits of every integer width
+            35 => self
+                .rng
+                .pick(&[
+                    Value::TinyInt(Some(i8::MIN)),
+                    Value::TinyInt(Some(i8::MAX)),
+                    Value::SmallInt(Some(i16::MIN)),
+                    Value::SmallInt(Some(i16::MAX)),
+                    Value::Int(Some(i32::MIN)),
+                    Value::Int(Some(i32::MAX)),
+                    Value::TinyUnsigned(Some(u8::MAX)),
+                    Value::SmallUnsigned(Some(u16::MAX)),
+                    Value::Unsigned(Some(u32::MAX)),
+                    Value::BigUnsigned(Some(u64::MAX)),
+                    Value::BigUnsigned(Some(0)),
+                    Value::Int(Some(0)),
+                ])
+                .clone(),
             38 => Value::Array(sea_query::ArrayType::Int, None),
             39 => Value::Vector(None),
             16 => Value::ChronoDate(Some(Box::new(chrono::NaiveDate::from_ymd_opt(2000 + (t % 30) as i32, 1 + (t % 12) as u32, 1 + (t % 28) as u32).unwrap()))),
